@@ -8,4 +8,9 @@ if ! "$PY" -c "import hypothesis" 2>/dev/null; then
     mkdir -p .deps
     "$PY" -m pip install --quiet --no-index --find-links /opt/veriftools/wheels --target .deps hypothesis
 fi
+# atheris (thorough tier only, coverage-guided second engine): private target dir
+if ! PYTHONPATH=.deps "$PY" -c "import atheris" 2>/dev/null; then
+    mkdir -p .deps
+    "$PY" -m pip install --quiet --no-index --find-links /opt/veriftools/wheels --target .deps atheris || echo "warning: atheris not installable; thorough tier will report a harness error for its second engine"
+fi
 PYTHONPATH=/repo:.:.deps "$PY" -c "import hypothesis, trie; from ptv.ref import kat; print('setup ok: hypothesis', hypothesis.__version__, '- reference self-tests:', kat.run_all())"
